@@ -928,7 +928,11 @@ class EventBus:
                     self._on_idle.set()
                 return None
 
-        except (asyncio.CancelledError, RuntimeError, QueueShutDown):
+        except asyncio.CancelledError:
+            # the run loop task itself is being cancelled (stop(), loop shutdown): stop polling and let it end
+            get_next_queued_event.cancel()
+            raise
+        except (RuntimeError, QueueShutDown):
             # Clean cancellation during shutdown or queue was shut down
             return None
 
